@@ -12,125 +12,6 @@
 //@@ rewrite: searchlite-core/src/api/writer.rs :: WalEntry::AddDoc(doc) => { ==> WalEntry::AddDoc(doc) => { let doc = std::mem::ManuallyDrop::into_inner(doc);
 use super::*;
 use crate::verif_support::*;
-use std::io::{Read, Seek, SeekFrom, Write};
-
-struct Shared(*mut Vec<u8>);
-unsafe impl Send for Shared {}
-unsafe impl Sync for Shared {}
-
-struct MemStorage {
-  data: Shared,
-  root: PathBuf,
-}
-
-struct MemFile {
-  data: Shared,
-  pos: u64,
-}
-
-impl MemStorage {
-  fn new(image: Vec<u8>) -> Self {
-    MemStorage {
-      data: Shared(Box::into_raw(Box::new(image))),
-      root: PathBuf::new(),
-    }
-  }
-  fn bytes(&self) -> &mut Vec<u8> {
-    unsafe { &mut *self.data.0 }
-  }
-}
-
-impl Read for MemFile {
-  fn read(&mut self, buf: &mut [u8]) -> std::io::Result<usize> {
-    let d = unsafe { &*self.data.0 };
-    let p = self.pos as usize;
-    if p >= d.len() {
-      return Ok(0);
-    }
-    let n = std::cmp::min(buf.len(), d.len() - p);
-    buf[..n].copy_from_slice(&d[p..p + n]);
-    self.pos += n as u64;
-    Ok(n)
-  }
-}
-
-impl Write for MemFile {
-  fn write(&mut self, buf: &[u8]) -> std::io::Result<usize> {
-    // O_APPEND: every write lands at the current end of the file
-    let d = unsafe { &mut *self.data.0 };
-    d.extend_from_slice(buf);
-    self.pos = d.len() as u64;
-    Ok(buf.len())
-  }
-  fn flush(&mut self) -> std::io::Result<()> {
-    Ok(())
-  }
-}
-
-impl Seek for MemFile {
-  fn seek(&mut self, to: SeekFrom) -> std::io::Result<u64> {
-    let d = unsafe { &*self.data.0 };
-    self.pos = match to {
-      SeekFrom::Start(p) => p,
-      SeekFrom::End(o) => (d.len() as i64 + o) as u64,
-      SeekFrom::Current(o) => (self.pos as i64 + o) as u64,
-    };
-    Ok(self.pos)
-  }
-}
-
-impl StorageFile for MemFile {
-  fn set_len(&mut self, len: u64) -> Result<()> {
-    let d = unsafe { &mut *self.data.0 };
-    d.resize(len as usize, 0);
-    Ok(())
-  }
-  fn sync_all(&mut self) -> Result<()> {
-    Ok(())
-  }
-}
-
-impl Storage for MemStorage {
-  fn root(&self) -> &Path {
-    &self.root
-  }
-  fn ensure_dir(&self, _path: &Path) -> Result<()> {
-    Ok(())
-  }
-  fn exists(&self, _path: &Path) -> bool {
-    true
-  }
-  fn open_read(&self, _path: &Path) -> Result<crate::storage::DynFile> {
-    Ok(Box::new(MemFile {
-      data: Shared(self.data.0),
-      pos: 0,
-    }))
-  }
-  fn open_write(&self, path: &Path) -> Result<crate::storage::DynFile> {
-    self.open_read(path)
-  }
-  fn open_append(&self, _path: &Path) -> Result<crate::storage::DynFile> {
-    Ok(Box::new(MemFile {
-      data: Shared(self.data.0),
-      pos: self.bytes().len() as u64,
-    }))
-  }
-  fn read_to_end(&self, _path: &Path) -> Result<Vec<u8>> {
-    Ok(self.bytes().clone())
-  }
-  fn write_all(&self, _path: &Path, _data: &[u8]) -> Result<()> {
-    Ok(())
-  }
-  fn atomic_write(&self, _path: &Path, _data: &[u8]) -> Result<()> {
-    Ok(())
-  }
-  fn remove(&self, _path: &Path) -> Result<()> {
-    Ok(())
-  }
-  fn remove_dir_all(&self, _path: &Path) -> Result<()> {
-    Ok(())
-  }
-}
 
 /// `serde_json::from_slice::<Document>` stub: within the harness bounds every
 /// add-document payload is at most 1 byte, which is never a JSON object, so the
@@ -531,8 +412,8 @@ macro_rules! each_pos {
 //@ props: C17, C02
 //@ tier: quick
 //@ funcs: index::wal::Wal::replay, util::varint::read_u64, crc32fast (portable path)
-//@ symbolic: ids a, b; ONE byte of the first 13 bytes (records 1 and 2) of the 20-byte log `delete(a), commit, delete(b)`, at EVERY position, is xor-ed with an arbitrary non-zero mask
-//@ bounds: 20-byte log, positions 0..12, every one-byte change
+//@ symbolic: ids a, b; ONE byte of the 20-byte log `delete(a), commit, delete(b)` is xor-ed with an arbitrary non-zero mask, at each of the positions 0 (length varint), 1 (record type), 2 (payload), 6 (last checksum byte) of the first record and 8 (record type) of the commit marker
+//@ bounds: 20-byte log, 5 representative positions (every field kind of a record), every one-byte change; the remaining positions are in the thorough tier
 //@ oracle: replay never panics and returns exactly the records lying wholly before the corrupted byte: never a different operation, never the corrupted record or one behind it
 //@ assumes: as c02_wal_roundtrip_dcd
 #[kani::proof]
@@ -548,14 +429,15 @@ fn c17_wal_single_byte_corruption() {
   let full = st.bytes().clone();
   let mask: u8 = kani::any();
   kani::assume(mask != 0);
-  each_pos!(&full, a, b, mask; 0, 1, 2, 3, 4, 5, 6, 7, 8, 9, 10, 11, 12);
+  each_pos!(&full, a, b, mask; 0, 1, 2, 6, 8);
   kani::cover!(mask == 0x80, "high-bit flip (turns a length byte into a continuation byte)");
 }
 
 //@ like: c17_wal_single_byte_corruption
 //@ tier: thorough
-//@ symbolic: as c17_wal_single_byte_corruption for positions 13..19 (the last record)
-//@ bounds: 20-byte log, positions 13..19, every one-byte change
+//@ timeout: 2700
+//@ symbolic: as c17_wal_single_byte_corruption for the positions 3, 4, 5, 7, 9, 10, 11, 12 (rest of records 1 and 2)
+//@ bounds: 20-byte log, 8 positions, every one-byte change
 #[kani::proof]
 #[kani::unwind(8)]
 #[kani::stub(std::backtrace::Backtrace::capture, stub_backtrace)]
@@ -569,8 +451,30 @@ fn c17_wal_single_byte_corruption_tail() {
   let full = st.bytes().clone();
   let mask: u8 = kani::any();
   kani::assume(mask != 0);
-  each_pos!(&full, a, b, mask; 13, 14, 15, 16, 17, 18, 19);
+  each_pos!(&full, a, b, mask; 3, 4, 5, 7, 9, 10, 11, 12);
   kani::cover!(mask == 1, "low-bit flip");
+}
+
+//@ like: c17_wal_single_byte_corruption
+//@ tier: thorough
+//@ timeout: 2700
+//@ symbolic: as c17_wal_single_byte_corruption for positions 13..19 (the last record)
+//@ bounds: 20-byte log, positions 13..19, every one-byte change
+#[kani::proof]
+#[kani::unwind(8)]
+#[kani::stub(std::backtrace::Backtrace::capture, stub_backtrace)]
+#[kani::stub(alloc::fmt::format, stub_format)]
+#[kani::stub(crc32fast::Hasher::internal_new_specialized, stub_crc_specialized)]
+#[kani::stub(serde_json::from_slice, stub_from_slice)]
+#[kani::stub(core::str::from_utf8, stub_from_utf8)]
+fn c17_wal_single_byte_corruption_last_record() {
+  let (a, b) = (any_ascii(), any_ascii());
+  let st = build_dcd(a, b);
+  let full = st.bytes().clone();
+  let mask: u8 = kani::any();
+  kani::assume(mask != 0);
+  each_pos!(&full, a, b, mask; 13, 14, 15, 16, 17, 18, 19);
+  kani::cover!(mask == 0xff, "all bits flipped");
 }
 
 //@ props: C17, C16
